@@ -5,7 +5,7 @@ From Spec Require Import Sem FindSpec.
 From Proofs Require Import RefineBase RefineExec Refine Attempt FindCorrect SemSound Window UnrollSem ResolveOk ParseListsOk FrontTotal.
 From Model Require Parser.
 From Spec Require Lang.
-From Proofs Require LangAtoms LangSound.
+From Proofs Require LangAtoms LangSound NamedErase.
 
 (* The central refinement: whenever the specification derives the ordered outcome list l for the
    resolved pattern r from state s, the VM running r's code (placed anywhere in any program that
@@ -142,6 +142,21 @@ Proof.
 Qed.
 Print Assumptions C01_local_atoms.
 
+(* Named loops.  The refinement theorem above is stated for unnamed loops; naming a loop only changes WHERE captures
+   are recorded (the loop's per-iteration maps instead of the environment).  For every pattern without back-references
+   (the one construct that reads the environment) the VM runs of the pattern and of the pattern with all loop names
+   erased proceed in lock step - same pc, cursor and stacks at every step - so `find` reports the same matches in the
+   same order with the same numbers, offsets, lines, columns and values (everything but the variables), and crashes or
+   runs out of fuel exactly when the erased pattern does.  Hence everything the theorems of C01, C09 and C10 say about
+   positions, termination and crash-freedom of the erased (unnamed) pattern holds of the named one. *)
+Theorem C01_named_loops_same_spans :
+  forall r text fuel all skip take last,
+  NamedErase.noref r -> NamedErase.lists_plain r ->
+  NamedErase.sres_sim (find_matches fuel (compile r 0) text all skip take last)
+                      (find_matches fuel (compile (NamedErase.unname r) 0) text all skip take last).
+Proof. exact NamedErase.named_loops_same_spans_lemma. Qed.
+Print Assumptions C01_named_loops_same_spans.
+
 (* non-vacuity: a loop inside an alternation inside a recursive subroutine, on "aabbd":
    {'a' maybe s 'b'} = s 'd'  has the single outcome 5, and the hypotheses of C01_attempt hold *)
 Definition ex_rx : rx :=
@@ -183,3 +198,9 @@ Proof.
       constructor; [cbn; lia|reflexivity|]. constructor; [|constructor]. split; [|discriminate]. econstructor; [reflexivity|exact Hinner]. }
     change ex_text with ([97; 97; 98; 98]%N ++ ([100]%N ++ [])). constructor; [constructor; exact Houter|]. constructor; [apply Hw|constructor].
 Qed.
+
+(* non-vacuity of the named-loop theorem: at least 1 (any = c) named cs *)
+Definition ex_named_rx : rx := XLoop 0 1 (-1) false [99;115]%N (XDec [99]%N (XAtom (IMatchClass false CAny))).
+Example C01_named_witness : NamedErase.noref ex_named_rx /\ NamedErase.lists_plain ex_named_rx /\
+  NamedErase.unname ex_named_rx = XLoop 0 1 (-1) false [] (XDec [99]%N (XAtom (IMatchClass false CAny))).
+Proof. cbn. repeat split. Qed.
